@@ -37,7 +37,7 @@ def gen_history(rng, tier, force=None):
 
     if fan:
         # a full 16-child branch, thinned out again (direct, or the thinning inside a batch)
-        cut = 16 + (1 if fan[16][0] == "set" else 0) if mode != "direct" else len(fan)
+        cut = 16 + (1 if len(fan) > 16 and fan[16][0] == "set" else 0) if mode != "direct" else len(fan)
         for w in fan[:cut]:
             HX.apply_model(model, w)
             ops.append(w)
